@@ -385,7 +385,16 @@ def path_confined(ctx: Ctx, v: LocalView, rule: str) -> int:
                 outs, atoms = pass_outcomes(cfg, g.module, r)
                 for a in atoms:
                     txt = ast.unparse(a)
-                    consts = {c.value for c in ast.walk(a) if isinstance(c, ast.Constant) and isinstance(c.value, str)}
+                    consts = _str_consts(g, a)
+                    # a sentinel: `if v is None: raise` where `v = None` is assigned under a test of the segments
+                    if isinstance(a, ast.Compare) and len(a.ops) == 1 and isinstance(a.ops[0], (ast.Is, ast.Eq)) and isinstance(a.left, ast.Name) \
+                            and isinstance(a.comparators[0], ast.Constant) and a.comparators[0].value is None:
+                        for st_ in g.own_nodes():
+                            if isinstance(st_, ast.Assign) and isinstance(st_.value, ast.Constant) and st_.value.value is None \
+                                    and any(isinstance(t_, ast.Name) and t_.id == a.left.id for t_ in st_.targets):
+                                _o, atoms_ = pass_outcomes(cfg, g.module, st_)
+                                for a_ in atoms_:
+                                    consts |= _str_consts(g, a_)
                     if ".." in consts and "." in consts:
                         rejects += [o for o in outs if o.ast is a]
                     elif ".." in consts:
@@ -422,6 +431,18 @@ def path_confined(ctx: Ctx, v: LocalView, rule: str) -> int:
         else:
             rep.unknown(rule, _site(v, method), "location-building join not found", where)
     return n
+
+
+def _str_consts(g: Func, a: ast.AST) -> Set[str]:
+    """string constants of a test, module-level constant collections it names included (`s in _RELATIVE`)"""
+    out = {c.value for c in ast.walk(a) if isinstance(c, ast.Constant) and isinstance(c.value, str)}
+    for n in ast.walk(a):
+        if isinstance(n, ast.Name):
+            for st in g.module.assigns.get(n.id, []):
+                v = getattr(st, "value", None)
+                if isinstance(v, (ast.Tuple, ast.List, ast.Set)) or (isinstance(v, ast.Call) and unparse(v.func) in ("frozenset", "set", "tuple") and v.args):
+                    out |= {c.value for c in ast.walk(v) if isinstance(c, ast.Constant) and isinstance(c.value, str)}
+    return out
 
 
 def _mentions_path_param(ctx: Ctx, g: Func, call: ast.Call, method: str) -> bool:
